@@ -8,6 +8,9 @@
 #include "dbgroup/thread/id_manager.hpp"
 #include "rt.hpp"
 
+// the harness' own copies of heartbeats are plain std::weak_ptr: observing them is not a scheduling point
+#undef weak_ptr
+
 using dbgroup::thread::EpochGuard;
 using dbgroup::thread::EpochManager;
 using dbgroup::thread::IDManager;
